@@ -83,7 +83,7 @@ def diffusivity_laws(cname):
         for a in range(dim):
             for c in range(dim):
                 if a != c:
-                    obs.append(('lemma:%s:offdiag-zero-%d%d' % (name, a, c), D[a, c] == 0, {'timeout_ms': 10000 if 'pinv' not in ENG.records else 3000}))
+                    obs.append(('lemma:%s:offdiag-zero-%d%d' % (name, a, c), D[a, c] == 0, {'timeout_ms': 10000 if 'pinv' not in ENG.records else 1200}))
         # lemma chain: abstract entries d_ac with the lemmas proven above as hypotheses |- v^T d v >= 0
         d = [[core.z3.Real('d_%d_%d' % (a, c)) for c in range(dim)] for a in range(dim)]
         hyps = [d[a][a] >= 0 for a in range(dim)] + [d[a][c] == 0 for a in range(dim) for c in range(dim) if a != c]
@@ -186,17 +186,17 @@ def rot4(R, T):
 def sections(tier):
     S = run.Section
     secs = []
-    PSD_TO[0] = 0 if tier == 'quick' else 300000   # quick: PSD by lemma chain only; thorough: also SOS certificate + direct query
+    PSD_TO[0] = 0 if tier == 'quick' else 120000   # quick: PSD by lemma chain only; thorough: also SOS certificate + direct query
     if tier == 'quick':
         plan = [('X1s', 60000, 170), ('X1', 60000, 170), ('X4r', 60000, 170), ('X2', 10000, 170), ('X5', 10000, 170)]
         eplan = [('X1s', 0), ('X1', 1), ('X2', 0)]
     else:
-        plan = [('X1s', 300000, 3000), ('X1', 300000, 3000), ('X4r', 300000, 3000), ('X2', 300000, 3000), ('X3', 300000, 3000)]
+        plan = [('X1s', 120000, 1200), ('X1', 120000, 1200), ('X4r', 120000, 1200), ('X2', 120000, 1200), ('X3', 120000, 1200)]
         eplan = [(c, k) for c in ('X1s', 'X1', 'X4r', 'X2', 'X3') for k in range(3)]
     for c, to, bud in plan:
         secs.append(S('D:' + c, diffusivity_laws(c), timeout_ms=to, budget_s=bud, replayer='D', config=c, maxpaths=16))
     for c, k in eplan:
-        secs.append(S('elasto:%s:%d' % (c, k), elasto_laws(c, k), timeout_ms=60000, budget_s=170 if tier == 'quick' else 3000,
+        secs.append(S('elasto:%s:%d' % (c, k), elasto_laws(c, k), timeout_ms=60000, budget_s=170 if tier == 'quick' else 1200,
                       replayer='elasto', config=c, maxpaths=16))
     return secs
 
